@@ -11,7 +11,7 @@ from checks import c06
 LEVEL = c06.LEVEL
 RULE = c06.RULE + ("; C07 reads the answer-matching clauses: identifiers from the boundary alphabet "
                    "{0, 1, 0x7fffffff, 0x80000000, 0xffffffff} rotate over the requests of a history; plus a schedule "
-                   "exploration (d <= 1, thorough one scenario at d <= 2) of two node objects with the same local identity "
+                   "exploration (d <= 1; thorough adds the client role on the default schedule) of two node objects with the same local identity "
                    "that receive a DWR / a DPR each at the same moment: every connection carries exactly the answer to its "
                    "own request")
 ASSUMPTIONS = c06.ASSUMPTIONS
